@@ -59,11 +59,35 @@ pub fn run(seed: u64, n: usize, bin: &str, scratch: &str, driver: &str, out: &st
     std::fs::create_dir_all(&root).expect("scratch");
     let root = std::fs::canonicalize(&root).expect("canonical scratch");
     let names = ["a.txt", "b", "notes.final.txt", "c.windows-1251.txt", "data.csv", "x.y.z", "README", "d.txt"];
+    // short legacy texts whose result list holds a NON-TRANSITIVE chain of the ranking order: a later match is pairwise
+    // preferred to the first one (chaos within 1%, coherences 0.02-close pairwise but not overall).  Found by screening
+    // word-aligned corpus phrases with the library's public API; "best guess" and "first match" must still coincide
+    let mut chain_inputs: Vec<Vec<u8>> = vec![];
+    {
+        let s0 = NormalizerSettings::default();
+        let mut tries = 0;
+        while chain_inputs.len() < 3 && tries < 2500 {
+            tries += 1;
+            let t = rng.pick(&corpus.texts);
+            let words: Vec<&str> = t.split_whitespace().collect();
+            if words.len() < 6 { continue; }
+            let st = rng.below(words.len() - 5);
+            let n = rng.range(4, 12).min(words.len() - st);
+            let phrase = words[st..st + n].join(" ");
+            let enc = *rng.pick(&["iso-8859-2", "iso-8859-1", "windows-1250", "windows-1252", "iso-8859-15", "iso-8859-7", "windows-1251"]);
+            let b = match encode_text(&phrase, enc) { Some(b) if b.iter().any(|x| *x >= 0x80) => b, _ => continue };
+            if let Outcome::Ok(ms) = run_real(&b, &s0) {
+                if ms.len() >= 3 && ms.iter().skip(1).any(|m| m < &ms[0]) {
+                    chain_inputs.push(b);
+                }
+            }
+        }
+    }
     for k in 0..n {
         let dir = root.join(format!("case{}", k));
         std::fs::create_dir_all(&dir).unwrap();
         // ---- files ----
-        let nfiles = if (1..=3).contains(&k) { 1 } else { match rng.below(4) { 0 => 1, 1 => 1, 2 => 2, _ => 3 } };
+        let nfiles = if (1..=6).contains(&k) { 1 } else { match rng.below(4) { 0 => 1, 1 => 1, 2 => 2, _ => 3 } };
         let mut inputs: Vec<String> = vec![];
         let mut used: Vec<&str> = vec![];
         for _ in 0..nfiles {
@@ -74,7 +98,8 @@ pub fn run(seed: u64, n: usize, bin: &str, scratch: &str, driver: &str, out: &st
                 }
             };
             used.push(name);
-            let content: Vec<u8> = match if k == 1 { 100 } else if k == 2 { 101 } else if k == 3 { 102 } else { rng.below(10) } {
+            let content: Vec<u8> = match if k == 1 { 100 } else if k == 2 { 101 } else if k == 3 { 102 } else if (4..7).contains(&k) && k - 4 < chain_inputs.len() { 103 } else { rng.below(10) } {
+                103 => chain_inputs[k - 4].clone(),
                 // sizes around the library's limits: above the 500,000-byte prefix limit (whole-input strict decoding still
                 // applies), and above 1,000,000 bytes (lazy mode) -- legacy text, and ASCII that turns into legacy text
                 100 => { let n = 500_001 + rng.below(400_000); legacy_text(&mut rng, &corpus, n).0 }
@@ -120,7 +145,7 @@ pub fn run(seed: u64, n: usize, bin: &str, scratch: &str, driver: &str, out: &st
             inputs.push(p.to_string_lossy().to_string());
         }
         // sometimes an input whose name is the sibling name of another input
-        let special = (1..=3).contains(&k);
+        let special = (1..=6).contains(&k);
         if !special && rng.chance(1, 9) {
             let t: String = rng.pick(&corpus.texts).chars().take(300).collect();
             let ru = "\u{41f}\u{440}\u{438}\u{432}\u{435}\u{442}, \u{43c}\u{438}\u{440}! \u{42d}\u{442}\u{43e} \u{43f}\u{440}\u{43e}\u{441}\u{442}\u{43e}\u{439} \u{440}\u{443}\u{441}\u{441}\u{43a}\u{438}\u{439} \u{442}\u{435}\u{43a}\u{441}\u{442} \u{434}\u{43b}\u{44f} \u{43f}\u{440}\u{43e}\u{432}\u{435}\u{440}\u{43a}\u{438} \u{43a}\u{43e}\u{434}\u{438}\u{440}\u{43e}\u{432}\u{43a}\u{438}. ".repeat(4);
@@ -182,7 +207,7 @@ pub fn run(seed: u64, n: usize, bin: &str, scratch: &str, driver: &str, out: &st
             _ => {}
         }
         // ---- flags ----
-        let fl = match if k == 1 || k == 3 { 3 } else if k == 2 { 9 } else { rng.below(10) } {
+        let fl = match if k == 1 || k == 3 { 3 } else if k == 2 || k == 4 { 9 } else if k == 5 { 7 } else if k == 6 { 3 } else { rng.below(10) } {
             0 => Flags { normalize: false, replace: true, force: false, minimal: false, alternatives: false, threshold: None },
             1 => Flags { normalize: true, replace: false, force: true, minimal: false, alternatives: false, threshold: None },
             2 => Flags { normalize: false, replace: false, force: false, minimal: false, alternatives: false, threshold: Some(*rng.pick(&[1.5f32, -0.25, 2.0])) },
